@@ -181,6 +181,9 @@ type ReadSchedCase struct {
 	// timer sweep: the clock has passed the deadline but not the next tick, so the wheel does not expire
 	// the entry - the eviction policy picks the expired, not yet swept entry as its victim.
 	SizeEvict bool `json:"size_eviction,omitempty"`
+	// JudgeBound (C04): the case is judged by the size bound only - once the maximum was lowered to 0 and one
+	// more CleanUp ran, nothing may be present, whatever became of the racing read's extension.
+	JudgeBound bool `json:"judge_bound,omitempty"`
 }
 
 var schedSites = sync.OnceValue(func() map[string]int {
@@ -299,6 +302,19 @@ func runReadSched(sc *ReadSchedCase) (violation string) {
 	case <-done:
 	default:
 		return "the parked read did not return"
+	}
+	if sc.JudgeBound {
+		c.CleanUp()
+		n, ks := 0, []int{}
+		for kk := range c.All() {
+			n++
+			ks = append(ks, kk)
+		}
+		if _, ok := c.GetIfPresent(k); ok || n > 0 {
+			return fmt.Sprintf("the maximum was lowered to 0 at %d while a read that had sampled the clock at %d (deadline %d) was publishing its extended deadline (released at site %d); after it returned and one more CleanUp ran, %d entries are present (keys %v, GetIfPresent(%d) present=%v): the size bound does not hold and the entry cannot be evicted any more",
+				t2, t1, sc.Origin+sc.TTL, sc.Release, n, ks, k, ok)
+		}
+		return ""
 	}
 	extended := t1 + sc.TTL // if the read was applied; otherwise the old deadline - both lie before the judging time
 	t3 := extended + sc.Later
@@ -504,9 +520,23 @@ func RunExtend(col *core.Collector, tier string, seed uint64, shard, nshards int
 
 // RunReadSched runs the reader-vs-sweep schedules of C13.
 func RunReadSched(col *core.Collector, tier string, seed uint64, shard, nshards int, replayDir string) {
+	runReadSchedFor(col, "C13", tier, seed, shard, nshards, replayDir)
+}
+
+// RunReadSchedBound is the part of C04 that needs a schedule: the size-eviction variant of the reader-vs-sweep
+// schedules (the victim of a size eviction has expired and is being extended by a racing read), judged by the
+// bound after SetMaximum(0).
+func RunReadSchedBound(col *core.Collector, tier string, seed uint64, shard, nshards int, replayDir string) {
+	runReadSchedFor(col, "C04", tier, seed, shard, nshards, replayDir)
+}
+
+func runReadSchedFor(col *core.Collector, prop, tier string, seed uint64, shard, nshards int, replayDir string) {
 	n := 1200
 	if tier == "thorough" {
 		n = 50000
+	}
+	if prop == "C04" {
+		n /= 2
 	}
 	for i := shard; i < n; i += nshards {
 		r := core.NewRng(core.Derive(seed, core.StrLabel("C13readsched"), uint64(i)))
@@ -522,7 +552,7 @@ func RunReadSched(col *core.Collector, tier string, seed uint64, shard, nshards 
 		if r.Chance(1, 3) {
 			sc.Bound = 10 + r.Intn(100)
 		}
-		if r.Chance(1, 4) {
+		if r.Chance(1, 4) || prop == "C04" {
 			// size eviction of the expired, not yet swept entry: deadline and racing instant within one tick
 			sc.SizeEvict = true
 			sc.Bound = 10 + r.Intn(100)
@@ -531,6 +561,14 @@ func RunReadSched(col *core.Collector, tier string, seed uint64, shard, nshards 
 			sc.Before = 1 + r.Int63()%(sc.TTL/2)
 			sc.Past = r.Int63() % 1000
 			sc.Others = 0 // the expired entry is the only possible victim
+		}
+		if prop == "C04" {
+			sc.JudgeBound = true
+			sc.Release = 2 + r.Intn(2)
+			if r.Chance(1, 3) {
+				sc.Release = r.Intn(4)
+			}
+			col.Count("size_eviction_read_schedules", 1)
 		}
 		v := runReadSched(sc)
 		col.Eval(1)
@@ -541,10 +579,10 @@ func RunReadSched(col *core.Collector, tier string, seed uint64, shard, nshards 
 		}
 		col.NonTrivial(core.HashJSON(sc))
 		if v != "" {
-			path := filepath.Join(replayDir, fmt.Sprintf("C13-readsched-%x.json", core.HashJSON(sc)))
+			path := filepath.Join(replayDir, fmt.Sprintf("%s-readsched-%x.json", prop, core.HashJSON(sc)))
 			data, _ := json.MarshalIndent(map[string]any{"readsched_case": sc, "violation": v}, "", " ")
 			os.WriteFile(path, data, 0o644)
-			col.Violation(core.Violation{Property: "C13", Signature: "readsched:" + sigOf(v), Detail: v + fmt.Sprintf(" (schedule %+v)", *sc), Replay: path})
+			col.Violation(core.Violation{Property: prop, Signature: "readsched:" + sigOf(v), Detail: v + fmt.Sprintf(" (schedule %+v)", *sc), Replay: path})
 			if col.NumViolations() >= 5 {
 				break
 			}
@@ -565,7 +603,11 @@ func ReplayReadSched(col *core.Collector, data []byte, path string) error {
 	fmt.Printf("schedule %+v\n", w.Case)
 	if v != "" {
 		fmt.Println("violation:", v)
-		col.Violation(core.Violation{Property: "C13", Signature: "readsched:" + sigOf(v), Detail: v, Replay: path})
+		prop := "C13"
+		if w.Case.JudgeBound {
+			prop = "C04"
+		}
+		col.Violation(core.Violation{Property: prop, Signature: "readsched:" + sigOf(v), Detail: v, Replay: path})
 	}
 	return nil
 }
